@@ -12,7 +12,7 @@ from lib.tocoq import Ctor, Raw, Some, term, val
 
 PROP = "C20"
 PROPS_FILE = "props/C20.v"
-GEN: list[str] = []
+GEN = ["gen_stream"]
 CORRESPONDENCES = ["stream:MemoryviewStream~model", "stream:BytesIO~spec", "fs:FSStoragePlugin~model"]
 RULE = ("stream: all op sequences up to a bound over a 13-op alphabet (read n/None, seek pos whence incl. bad whence, "
         "tell, close) on several buffers + random longer ones; fs: random sets of concurrent writes (bytes and "
@@ -20,7 +20,9 @@ RULE = ("stream: all op sequences up to a bound over a 13-op alphabet (read n/No
         "reads. A case is non-trivial when it contains at least one read that returns data; distinct by content hash.")
 TRUSTED = [
     "Coq 8.16.1 kernel and its vm_compute VM (no native_compute)",
-    "hand-written model coq/model/FsStream.v tied to the code by differential runs (this harness); "
+    "translator/gen_stream.py (MemoryviewStream.read/seek/tell statement by statement; the file operations of "
+    "FSStoragePlugin.read/write over the modelled POSIX file handle of coq/model/FsStream.v; fail closed), also exercised by "
+    "differential runs of the generated terms against the real classes (this harness); "
     "the OS file system, aiofiles and CPython's io.BytesIO are runtime, modelled not verified",
     "harness/props/C20.py generators, canonicalisation and lib/tocoq.py literal printer",
 ]
@@ -29,7 +31,7 @@ ASSUMPTIONS = [
     "POSIX read semantics: seek(a); read(n) returns min(n, remaining) bytes",
 ]
 
-IMPORTS = "From TS Require Import model.FsStream.\n"
+IMPORTS = "From TS Require Import model.FsStream model.StreamGenObs.\n"
 
 
 # --------------------------------------------------------------------------- stream
@@ -125,7 +127,7 @@ def check_stream(ctx: Ctx, res: Result):
         inp = f"({term(d)}, [{'; '.join(op_term(o) for o in ops)}])"
         coq_mv.append((inp, val(mv)))
         coq_bio.append((inp, val(bio)))
-    bad, errs = coqrun.run_cases("C20_mv", IMPORTS, "obs_stream_mvs", coq_mv)
+    bad, errs = coqrun.run_cases("C20_mv", IMPORTS, "obs_stream_gen", coq_mv)
     for e in errs:
         res.mismatches.append(Mismatch("stream:MemoryviewStream~model", "coqc error", None, e))
     for i in bad:
@@ -251,7 +253,7 @@ def check_fs(ctx: Ctx, res: Result):
             f"({term(p)}, {'None' if r is None else '(Some (' + term(r[0]) + ', ' + term(r[1]) + '))'})" for p, r in reads) + "]"
         coq_cases.append((f"({w_term}, {r_term})", val([None if o is None else [list(o)] for o in out])))
         meta.append((writes, overwrite, reads))
-    bad, errs = coqrun.run_cases("C20_fs", IMPORTS, "obs_fs", coq_cases, shard=100)
+    bad, errs = coqrun.run_cases("C20_fs", IMPORTS, "obs_fs_gen", coq_cases, shard=100)
     for e in errs:
         res.mismatches.append(Mismatch("fs:FSStoragePlugin~model", "coqc error", None, e))
     for i in bad:
@@ -295,15 +297,17 @@ def replay(ctx: Ctx, data):
     return Failure("C20:fs-read-wrong-bytes", f"got {out!r} expected {exp!r}", data) if out != exp else None
 
 MANIFEST = {
-    "level_text": ("Machine-checked proof (Coq 8.16.1) over an executable model of FSStoragePlugin.read/write and "
-                   "MemoryviewStream: ranged reads are exact for every byte string and every 0<=a<=b<=len; writes to distinct "
+    "level_text": ("Machine-checked proof (Coq 8.16.1) over a model REGENERATED FROM THE SOURCE on every run (MemoryviewStream "
+                   "methods translated statement by statement; the file operations of FSStoragePlugin.read/write as programs "
+                   "over a modelled POSIX file handle): ranged reads are exact for every byte string and every 0<=a<=b<=len; writes to distinct "
                    "paths in any completion order read back exactly; a missing path is an error; the stream is observationally "
-                   "equal to an in-memory byte stream for every op sequence (refinement by simulation). The model is tied to "
+                   "equal to an in-memory byte stream for every op sequence (refinement by simulation). The per-run "
+                   "obligations are the instantiation lemmas of proofs/StreamInst.v; in addition the generated terms are tied to "
                    "the code on every run by differential execution of the real plugin (scratch directory), the real "
                    "MemoryviewStream and the real io.BytesIO against the model inside coqc (vm_compute)."),
-    "level_note": ("Trusted: Coq kernel + VM; hand-written model (coq/model/FsStream.v) and the differential harness; the OS file "
+    "level_note": ("Trusted: Coq kernel + VM; translator/gen_stream.py; the POSIX file-handle semantics of coq/model/FsStream.v and the differential harness; the OS file "
                    "system, aiofiles and CPython io are runtime behaviour (modelled, not verified). Theorems are closed under the "
                    "global context (no axioms)."),
-    "technique": "Coq proof (refinement + list lemmas) with vm_compute correspondence against the real plugin/stream",
+    "technique": "Coq refinement proof over the source-translated stream methods and file programs + vm_compute correspondence against the real plugin/stream",
     "design_ref": "DESIGN.md section 5, C20",
 }
